@@ -248,7 +248,7 @@ Print Assumptions C11_visible_recursive.
    and the events queued (with F = None it is Contract.deliver_one).  The unfiltered watch has mask
    WATCHDOG_ALL, the filtered one the mask its filter is compiled into.
    REPAIRED READER (F10): the twins have the same reader state INCLUDING the remembered move-out candidate [pend], the
-   same watches up to their masks and the same unread records ([kw0]; the reader itself queues IN_IGNORED records
+   same watches up to their masks ([kw0]) and the same unread records (the reader itself queues IN_IGNORED records
    when it removes the watches of a directory that left the tree: [qjunk]).  New hypothesis [regular_step], about the
    UNFILTERED world only: (1) the records in its kernel queue differ pairwise in (descriptor, mask, name) before and
    after the operation - always true from a drained queue (C11_kernel_no_coalescing) -, (2) the batch is guarded
@@ -258,11 +258,11 @@ Print Assumptions C11_visible_recursive.
    does not cover. *)
 Theorem C11_transparent_step : forall F C, c_mask C = WATCHDOG_ALL -> visible F (c_recursive C) ->
   forall full w k k' r o w1 k1 r1 evs,
-    kw0 WATCHDOG_ALL (kmask F (c_recursive C)) k k' -> qjunk k -> regular_step F C w k r o ->
+    kw0 WATCHDOG_ALL (kmask F (c_recursive C)) k k' -> k_queue k = k_queue k' -> qjunk k -> regular_step F C w k r o ->
     run_one None C full w k r o = Some (w1, k1, r1, evs) ->
     exists k1', run_one F (with_mask C (kmask F (c_recursive C))) full w k' r o
                 = Some (w1, k1', r1, filter (fun e => accepts F (ev_cls e)) evs) /\
-                kw0 WATCHDOG_ALL (kmask F (c_recursive C)) k1 k1' /\ qjunk k1.
+                kw0 WATCHDOG_ALL (kmask F (c_recursive C)) k1 k1' /\ k_queue k1 = k_queue k1' /\ qjunk k1.
 Proof. exact transparent_step. Qed.
 Print Assumptions C11_transparent_step.
 
@@ -374,7 +374,7 @@ Theorem C11_pipeline_transparent_step : forall F PU PF sU sF o,
   buffer_idle (p_buf sU) -> buffer_idle (p_buf sF) -> p_stopped sU = false -> p_stopped sF = false ->
   (forall id, In id (map fst (p_tbl sU)) -> (id < p_next sU)%N) ->
   (forall id, In id (map fst (p_tbl sF)) -> (id < p_next sF)%N) ->
-  k_queue (p_k sU) = [] ->
+  k_queue (p_k sU) = [] -> k_queue (p_k sF) = [] ->
   regular_step F (pc_reader PU) (p_world sU) (p_k sU) (p_r sU) o ->
   forall w1 k1 r1 evs,
   run_one None (pc_reader PU) (pc_full PU) (p_world sU) (p_k sU) (p_r sU) o = Some (w1, k1, r1, evs) ->
